@@ -188,7 +188,8 @@ def script_strategy(version, all_metrics, order, complete=None):
                 elif k == 3:
                     a = draw(st.sampled_from(V.table[m])) + draw(st.sampled_from(["X", "1", "?", "/", ":"]))
                 else:
-                    a = draw(st.sampled_from(["ND", "X", "nd", "x", "Not Defined", "0", "none"]))
+                    a = draw(st.sampled_from(["ND", "X", "nd", "x", "Not Defined", "0", "none", "Network", "High", "Low", "None", "Required",
+                                              "Changed", "Partial", "Complete", "Not", "NET", "HI", "Y", "yes", "no", "1", "2"]))
                 answers.append(a)
                 retries += 1
             if V.nd in V.values[m] and draw(st.integers(0, 3)) == 0:
